@@ -67,6 +67,12 @@ def export_form(lex, members_from=None):
             ss['relations'] = _relset(ss['relations'])
         if ss.get('ili') not in ('in',):
             ss.pop('ili_definition', None)
+    # the order of LexicalEntry / Synset elements in the file carries no meaning (identifiers are unique here):
+    # compared by id; order *inside* an entry or synset (forms, senses, definitions, examples) stays significant
+    for key in ('entries', 'synsets'):
+        items = c.get(key)
+        if items and len({x['id'] for x in items}) == len(items):
+            c[key] = {x['id']: x for x in items}
     return c
 
 
@@ -135,7 +141,12 @@ def run_case(case, rec):
                 rec.event('export.loaded')
                 rec.event('export.version.' + v)
                 want = lmfnf.project(res, v)
-                for lx_want, lx_got in zip(want['lexicons'], R['lexicons']):
+                got_lex = {x['id']: x for x in R['lexicons']}
+                if sorted(got_lex) != sorted(x['id'] for x in want['lexicons']):
+                    rec.violation('export:lexicons', f'export as {v} contains lexicons {sorted(got_lex)}')
+                    continue
+                for lx_want in want['lexicons']:
+                    lx_got = got_lex[lx_want['id']]
                     d = diff(export_form(lx_want), export_form(lx_got))
                     if d:
                         key = 'export:' + norm_path(d[0])
@@ -152,7 +163,11 @@ def run_case(case, rec):
                     else:
                         rec.event('framelinks.compared', len(lw))
                     # member order
-                    for ss_w, ss_g in zip(lx_want.get('synsets', []), lx_got.get('synsets', [])):
+                    got_by_id = {x['id']: x for x in lx_got.get('synsets', [])}
+                    for ss_w in lx_want.get('synsets', []):
+                        ss_g = got_by_id.get(ss_w['id'])
+                        if ss_g is None:
+                            continue
                         if v != '1.0' and ss_g.get('members') is not None:
                             exp_members = View(m1, [f"{lx_want['id']}:{lx_want['version']}"]).synset_members(
                                 f"{lx_want['id']}:{lx_want['version']}::{ss_w['id']}", {f"{lx_want['id']}:{lx_want['version']}"})
